@@ -1,7 +1,1528 @@
-//! C15: not implemented yet.
+//! C15: ORDER BY, LIMIT, OFFSET and DISTINCT are exact.
+//!
+//! Generated duplicate-heavy, NULL-bearing tables (with and without a secondary index on the sort
+//! column); generated queries of eight families; each query runs on TurDB and on the reference
+//! model (`sqlm::query::run_model`) and is judged by `sqlm::cmp::compare` (+ `distinct_once`).
+//! A failing query is first checked for a wrong *base* query (same query without
+//! DISTINCT/ORDER BY/LIMIT/OFFSET: not this property's business, dropped and counted), then shrunk
+//! to a minimal failing statement whose feature set (+ plan path + causal data fact `null_keys`)
+//! is the signature.
+use crate::report::{catch, Ctx};
+use crate::rng::{fnv, Rng};
+use crate::sqlm::cmp::compare;
+use crate::sqlm::db::{is_panic, panic_tag, Db, Scratch};
+use crate::sqlm::expr::{bin, col, lit, AggFn, BinOp, MErr, E};
+use crate::sqlm::gen::{gen_pred, scope_of, ColSpec, ExprOpts, TableSpec, Ty};
+use crate::sqlm::query::{run_model, FromItem, Item, Join, JoinKind, MTable, OrderKey, QResult, Query, Select, SetKind};
+use crate::sqlm::val::{row_key, rows_json, Row, V};
 use crate::Args;
+use serde_json::{json, Value as J};
+use std::collections::{BTreeMap, BTreeSet};
 
-pub fn run(_a: &Args) -> i32 {
-    println!("INCONCLUSIVE property=C15 reason=check not implemented yet");
-    2
+// ---------------------------------------------------------------------------------------------
+// tables
+// ---------------------------------------------------------------------------------------------
+
+#[derive(Clone)]
+struct Tab {
+    spec: TableSpec,
+    rows: Vec<Row>,
+    /// columns of the secondary index (empty = no index)
+    index: Vec<String>,
+    /// CREATE INDEX before the INSERTs (else after: backfill)
+    index_first: bool,
+}
+
+impl Tab {
+    fn setup(&self, as_name: &str, rows: &[Row]) -> Vec<String> {
+        let mut spec = self.spec.clone();
+        spec.name = as_name.to_string();
+        let mut v = vec![spec.create_sql()];
+        let ix = if self.index.is_empty() { None } else { Some(format!("CREATE INDEX ix_{} ON {} ({})", as_name, as_name, self.index.join(", "))) };
+        if self.index_first {
+            v.extend(ix.clone());
+        }
+        v.extend(spec.insert_sql(rows));
+        if !self.index_first {
+            v.extend(ix);
+        }
+        v
+    }
+}
+
+/// small domains: many duplicates
+fn dup_value(rng: &mut Rng, ty: Ty, null_pm: u64) -> V {
+    if rng.below(1000) < null_pm {
+        return V::Null;
+    }
+    match ty {
+        Ty::Int => {
+            if rng.chance(5, 6) {
+                V::Int(rng.range(0, 3))
+            } else {
+                V::Int(*rng.pick(&[-2i64, -1, 7, 100, -100]))
+            }
+        }
+        Ty::Float => V::Float(rng.range(-3, 5) as f64 / 2.0),
+        Ty::Text => V::Text(rng.pick(&["", "a", "ab", "b", "ba", "zz"]).to_string()),
+        Ty::Bool => V::Bool(rng.chance(1, 2)),
+    }
+}
+
+fn letter(ty: Ty) -> char {
+    match ty {
+        Ty::Int => 'i',
+        Ty::Float => 'f',
+        Ty::Text => 't',
+        Ty::Bool => 'b',
+    }
+}
+
+fn gen_tab(rng: &mut Rng, name: &str, tys: &[Ty], nrows: usize, index_pm: u64) -> Tab {
+    let cols: Vec<ColSpec> = tys
+        .iter()
+        .enumerate()
+        .map(|(i, ty)| ColSpec {
+            name: format!("{}{}{}", letter(*ty), i, name),
+            ty: *ty,
+            // column 0 (the canonical integer column) always carries NULLs
+            null_pm: if i == 0 { *rng.pick(&[200u64, 350, 500]) } else { *rng.pick(&[0u64, 200, 200, 500]) },
+        })
+        .collect();
+    let spec = TableSpec { name: name.to_string(), cols, with_pk: true };
+    let mut rows = vec![];
+    for i in 0..nrows {
+        let mut r = vec![V::Int(i as i64 + 1)];
+        for c in &spec.cols {
+            r.push(dup_value(rng, c.ty, c.null_pm));
+        }
+        rows.push(r);
+    }
+    // ids are inserted in a shuffled order so that insertion order is not id order for payloads
+    rng.shuffle(&mut rows);
+    let mut index = vec![];
+    if rng.below(1000) < index_pm {
+        let first = if rng.chance(1, 2) { 0 } else { rng.usize(0, spec.cols.len() - 1) };
+        index.push(spec.cols[first].name.clone());
+        if spec.cols.len() > 1 && rng.chance(1, 4) {
+            let mut second = rng.usize(0, spec.cols.len() - 1);
+            if second == first {
+                second = (second + 1) % spec.cols.len();
+            }
+            index.push(spec.cols[second].name.clone());
+        }
+    }
+    Tab { spec, rows, index, index_first: rng.chance(1, 2) }
+}
+
+// ---------------------------------------------------------------------------------------------
+// query generation
+// ---------------------------------------------------------------------------------------------
+
+#[derive(Clone)]
+struct C {
+    e: E,
+    ty: Ty,
+}
+
+fn cols_of(tab: &Tab, qual: Option<&str>, with_id: bool) -> Vec<C> {
+    let mut v = vec![];
+    if with_id {
+        v.push(C { e: E::Col { tbl: qual.map(|s| s.to_string()), name: "id".into() }, ty: Ty::Int });
+    }
+    for c in &tab.spec.cols {
+        v.push(C { e: E::Col { tbl: qual.map(|s| s.to_string()), name: c.name.clone() }, ty: c.ty });
+    }
+    v
+}
+
+/// a numeric sort-key expression over the given columns
+fn key_expr(rng: &mut Rng, cols: &[C]) -> Option<E> {
+    let ints: Vec<&C> = cols.iter().filter(|c| c.ty == Ty::Int).collect();
+    let floats: Vec<&C> = cols.iter().filter(|c| c.ty == Ty::Float).collect();
+    if !floats.is_empty() && rng.chance(1, 4) {
+        // floats: + / - only (no -0.0)
+        let c = (*rng.pick(&floats)).clone();
+        let l = lit(V::Float(*rng.pick(&[0.5f64, 1.0, 2.5])));
+        return Some(bin(if rng.chance(1, 2) { BinOp::Add } else { BinOp::Sub }, c.e, l));
+    }
+    if ints.is_empty() {
+        return None;
+    }
+    let c = (*rng.pick(&ints)).clone().e;
+    Some(match rng.below(7) {
+        0 => bin(BinOp::Add, c, lit(V::Int(rng.range(1, 3)))),
+        1 => bin(BinOp::Sub, c, lit(V::Int(rng.range(1, 3)))),
+        2 => E::Neg(Box::new(c)),
+        3 => bin(BinOp::Mul, c, lit(V::Int(-1))),
+        4 => bin(BinOp::Mul, c, lit(V::Int(2))),
+        5 => {
+            let d = (*rng.pick(&ints)).clone().e;
+            if d.sql() != c.sql() {
+                bin(BinOp::Add, c, d)
+            } else {
+                bin(BinOp::Add, c, lit(V::Int(1)))
+            }
+        }
+        _ => E::Func("COALESCE".into(), vec![c, lit(V::Int(rng.range(-1, 2)))]),
+    })
+}
+
+/// select items + ORDER BY over them: every sort key is projected; key forms: plain column,
+/// ordinal, alias of an expression, repeated expression
+fn items_and_order(rng: &mut Rng, keys: Vec<E>, extras: Vec<E>) -> (Vec<Item>, Vec<OrderKey>) {
+    // (expr, alias, key index)
+    let mut slots: Vec<(E, Option<String>, Option<usize>)> = vec![];
+    for (i, k) in keys.iter().enumerate() {
+        let plain = matches!(k, E::Col { .. });
+        slots.push((k.clone(), if plain { None } else { Some(format!("k{}", i)) }, Some(i)));
+    }
+    for x in extras {
+        slots.push((x, None, None));
+    }
+    rng.shuffle(&mut slots);
+    let mut order: Vec<Option<OrderKey>> = vec![None; keys.len()];
+    for (pos, (e, alias, ki)) in slots.iter().enumerate() {
+        if let Some(ki) = ki {
+            let desc = rng.chance(1, 2);
+            let f = rng.below(10);
+            let k = if f < 2 {
+                OrderKey::Ordinal(pos + 1, desc)
+            } else if alias.is_none() {
+                OrderKey::Expr(e.clone(), desc)
+            } else if f < 7 {
+                OrderKey::Expr(col(alias.as_ref().unwrap()), desc)
+            } else {
+                OrderKey::Expr(e.clone(), desc)
+            };
+            order[*ki] = Some(k);
+        }
+    }
+    (slots.into_iter().map(|(e, alias, _)| Item::Expr { e, alias }).collect(), order.into_iter().map(|k| k.unwrap()).collect())
+}
+
+fn from_t(name: &str) -> Vec<FromItem> {
+    vec![FromItem::Table { name: name.into(), alias: None }]
+}
+
+fn small_where(rng: &mut Rng, tab: &Tab, qual: Option<&str>) -> E {
+    let mut o = ExprOpts::basic();
+    o.in_list = true;
+    o.between = true;
+    let depth = rng.below(2) as u32;
+    gen_pred(rng, &scope_of(&tab.spec, qual), depth, &o)
+}
+
+fn push_unique(v: &mut Vec<E>, e: E) {
+    if !v.iter().any(|x| x.sql() == e.sql()) {
+        v.push(e);
+    }
+}
+
+/// families order / limit / distinct / pk / limit_only over table t
+fn gen_single(rng: &mut Rng, t: &Tab, family: &str) -> Query {
+    let cols = cols_of(t, None, true);
+    let data_cols = cols_of(t, None, false);
+    let distinct = family == "distinct";
+    let mut keys: Vec<E> = vec![];
+    let nkeys = match family {
+        "pk" => 1,
+        "limit_only" => 0,
+        "distinct" => *rng.pick(&[0usize, 0, 1, 1, 2]),
+        _ => *rng.pick(&[1usize, 1, 2, 2, 3]),
+    };
+    if family == "pk" {
+        keys.push(col("id"));
+    }
+    while keys.len() < nkeys {
+        let first = keys.is_empty();
+        if first && !t.index.is_empty() && rng.chance(1, 2) {
+            push_unique(&mut keys, col(&t.index[0]));
+            continue;
+        }
+        if !distinct && rng.chance(1, 12) {
+            push_unique(&mut keys, col("id"));
+            continue;
+        }
+        if rng.chance(3, 10) {
+            if let Some(e) = key_expr(rng, if distinct { &data_cols } else { &cols }) {
+                push_unique(&mut keys, e);
+                continue;
+            }
+        }
+        push_unique(&mut keys, rng.pick(&data_cols).e.clone());
+    }
+    let mut extras: Vec<E> = vec![];
+    let has = |keys: &Vec<E>, e: &E| keys.iter().any(|k| k.sql() == e.sql());
+    if distinct {
+        if rng.chance(1, 10) && !has(&keys, &col("id")) {
+            extras.push(col("id"));
+        }
+        for c in &data_cols {
+            if rng.chance(3, 10) && !has(&keys, &c.e) {
+                extras.push(c.e.clone());
+            }
+        }
+        if keys.is_empty() && extras.is_empty() {
+            extras.push(rng.pick(&data_cols).e.clone());
+        }
+    } else {
+        if rng.chance(6, 10) && !has(&keys, &col("id")) {
+            extras.push(col("id"));
+        }
+        for c in &data_cols {
+            if rng.chance(3, 10) && !has(&keys, &c.e) {
+                extras.push(c.e.clone());
+            }
+        }
+        if keys.is_empty() && extras.is_empty() {
+            extras.push(col("id"));
+        }
+    }
+    let (items, order_by) = items_and_order(rng, keys, extras);
+    let where_ = if rng.chance(if family == "order" || family == "limit" { 25 } else { 15 }, 100) { Some(small_where(rng, t, None)) } else { None };
+    Query::Select(Select { distinct, items, from: from_t("t"), where_, order_by, ..Default::default() })
+}
+
+fn gen_group(rng: &mut Rng, t: &Tab) -> Query {
+    let data_cols = cols_of(t, None, false);
+    let mut gcols: Vec<E> = vec![];
+    let ng = *rng.pick(&[1usize, 1, 2]);
+    while gcols.len() < ng.min(data_cols.len()) {
+        push_unique(&mut gcols, rng.pick(&data_cols).e.clone());
+    }
+    let nums: Vec<&C> = data_cols.iter().filter(|c| matches!(c.ty, Ty::Int | Ty::Float)).collect();
+    let mut aggs: Vec<E> = vec![];
+    let na = *rng.pick(&[1usize, 1, 2]);
+    while aggs.len() < na {
+        let a = match rng.below(6) {
+            0 | 1 => E::Agg(AggFn::CountStar, None),
+            2 => E::Agg(AggFn::Count, Some(Box::new(rng.pick(&data_cols).e.clone()))),
+            3 => E::Agg(AggFn::Sum, Some(Box::new((*rng.pick(&nums)).e.clone()))),
+            4 => E::Agg(AggFn::Min, Some(Box::new((*rng.pick(&nums)).e.clone()))),
+            _ => E::Agg(AggFn::Max, Some(Box::new((*rng.pick(&nums)).e.clone()))),
+        };
+        push_unique(&mut aggs, a);
+    }
+    // keys: a non-empty subset of group columns and aggregates, aggregate first more often than not
+    let mut pool: Vec<E> = aggs.iter().cloned().chain(gcols.iter().cloned()).collect();
+    if rng.chance(1, 3) {
+        rng.shuffle(&mut pool);
+    }
+    let nk = rng.usize(1, pool.len().min(3));
+    let keys: Vec<E> = pool[..nk].to_vec();
+    let extras: Vec<E> = pool[nk..].to_vec();
+    let (items, order_by) = items_and_order(rng, keys, extras);
+    let where_ = if rng.chance(2, 10) { Some(small_where(rng, t, None)) } else { None };
+    Query::Select(Select { items, from: from_t("t"), where_, group_by: gcols, order_by, ..Default::default() })
+}
+
+fn gen_join(rng: &mut Rng, t: &Tab, u: &Tab) -> Query {
+    let tc = cols_of(t, Some("t"), true);
+    let uc = cols_of(u, Some("u"), true);
+    let tdata = cols_of(t, Some("t"), false);
+    let udata = cols_of(u, Some("u"), false);
+    // join columns: same layout position (same type); position 0 (ints with NULLs and duplicates) preferred
+    let j = if rng.chance(6, 10) { 0 } else { rng.usize(0, tdata.len() - 1) };
+    let on = bin(BinOp::Eq, tdata[j].e.clone(), udata[j].e.clone());
+    let kind = if rng.chance(6, 10) { JoinKind::Inner } else { JoinKind::Left };
+    let both: Vec<C> = tdata.iter().cloned().chain(udata.iter().cloned()).collect();
+    let all: Vec<C> = tc.iter().cloned().chain(uc.iter().cloned()).collect();
+    let nkeys = *rng.pick(&[1usize, 2, 2, 3]);
+    let mut keys: Vec<E> = vec![];
+    while keys.len() < nkeys {
+        if rng.chance(2, 10) {
+            if let Some(e) = key_expr(rng, &all) {
+                push_unique(&mut keys, e);
+                continue;
+            }
+        }
+        push_unique(&mut keys, rng.pick(&both).e.clone());
+    }
+    let distinct = rng.chance(1, 10);
+    let mut extras = vec![];
+    if !distinct {
+        for idc in [&tc[0], &uc[0]] {
+            if rng.chance(6, 10) && !keys.iter().any(|k| k.sql() == idc.e.sql()) {
+                extras.push(idc.e.clone());
+            }
+        }
+    }
+    let (items, order_by) = items_and_order(rng, keys, extras);
+    let where_ = if rng.chance(15, 100) { Some(small_where(rng, t, Some("t"))) } else { None };
+    Query::Select(Select {
+        distinct,
+        items,
+        from: from_t("t"),
+        joins: vec![Join { kind, item: FromItem::Table { name: "u".into(), alias: None }, on: Some(on) }],
+        where_,
+        order_by,
+        ..Default::default()
+    })
+}
+
+fn gen_setop(rng: &mut Rng, t: &Tab, u: &Tab) -> Query {
+    let n = t.spec.cols.len();
+    let k = rng.usize(1, n.min(2));
+    let mut pos: Vec<usize> = (0..n).collect();
+    rng.shuffle(&mut pos);
+    pos.truncate(k);
+    let self_union = rng.chance(15, 100);
+    let right_tab = if self_union { t } else { u };
+    let branch = |tab: &Tab, w: Option<E>| -> Query {
+        Query::Select(Select {
+            items: pos.iter().map(|p| Item::Expr { e: col(&tab.spec.cols[*p].name), alias: None }).collect(),
+            from: from_t(&tab.spec.name),
+            where_: w,
+            ..Default::default()
+        })
+    };
+    let lw = if rng.chance(2, 10) { Some(small_where(rng, t, None)) } else { None };
+    let rw = if self_union || rng.chance(2, 10) { Some(small_where(rng, right_tab, None)) } else { None };
+    let (kind, all) = match rng.below(100) {
+        0..=44 => (SetKind::Union, true),
+        45..=84 => (SetKind::Union, false),
+        85..=92 => (SetKind::Intersect, false),
+        _ => (SetKind::Except, false),
+    };
+    let mut order_by = vec![];
+    if rng.chance(9, 10) {
+        let mut idx: Vec<usize> = (0..k).collect();
+        rng.shuffle(&mut idx);
+        idx.truncate(rng.usize(1, k));
+        for i in idx {
+            let desc = rng.chance(1, 2);
+            if rng.chance(1, 2) {
+                order_by.push(OrderKey::Ordinal(i + 1, desc));
+            } else {
+                order_by.push(OrderKey::Expr(col(&t.spec.cols[pos[i]].name), desc));
+            }
+        }
+    }
+    Query::SetOp { kind, all, left: Box::new(branch(t, lw)), right: Box::new(branch(right_tab, rw)), order_by, limit: None, offset: None }
+}
+
+fn set_window(q: &mut Query, lim: Option<u64>, off: Option<u64>) {
+    match q {
+        Query::Select(s) => {
+            s.limit = lim;
+            s.offset = off;
+        }
+        Query::SetOp { limit, offset, .. } => {
+            *limit = lim;
+            *offset = off;
+        }
+    }
+}
+
+fn window_of(q: &Query) -> (Option<u64>, Option<u64>) {
+    match q {
+        Query::Select(s) => (s.limit, s.offset),
+        Query::SetOp { limit, offset, .. } => (*limit, *offset),
+    }
+}
+
+fn order_of(q: &Query) -> &Vec<OrderKey> {
+    match q {
+        Query::Select(s) => &s.order_by,
+        Query::SetOp { order_by, .. } => order_by,
+    }
+}
+
+fn order_of_mut(q: &mut Query) -> &mut Vec<OrderKey> {
+    match q {
+        Query::Select(s) => &mut s.order_by,
+        Query::SetOp { order_by, .. } => order_by,
+    }
+}
+
+/// LIMIT/OFFSET relative to the cardinality n of the unwindowed result: 0, 1, inside, at and beyond the end
+fn pick_window(rng: &mut Rng, n: u64) -> (Option<u64>, Option<u64>) {
+    let lim = *rng.pick(&[0u64, 1, 1, 2, 3, n / 2, n.saturating_sub(1), n, n + 1, n + 7]);
+    let off = if rng.chance(45, 100) { None } else { Some(*rng.pick(&[0u64, 1, 1, 2, n / 2, n.saturating_sub(1), n, n + 3])) };
+    if off.is_some() && rng.chance(1, 10) {
+        return (None, off);
+    }
+    (Some(lim), off)
+}
+
+// ---------------------------------------------------------------------------------------------
+// running and judging
+// ---------------------------------------------------------------------------------------------
+
+/// stable class of an error message: its first words, letters only
+fn err_class(e: &str) -> String {
+    e.split(|c: char| !c.is_ascii_alphabetic()).filter(|w| !w.is_empty()).take(7).collect::<Vec<_>>().join("_").to_lowercase()
+}
+
+enum Outcome {
+    Dropped,
+    Pass { m: QResult },
+    Fail { fails: Vec<(String, J)>, got: Option<Vec<Row>>, m: QResult },
+}
+
+fn is_distinct(q: &Query) -> bool {
+    matches!(q, Query::Select(s) if s.distinct)
+}
+
+fn judge(q: &Query, got: &[Row], m: &QResult) -> Vec<(String, J)> {
+    let mut out: Vec<(String, J)> = vec![];
+    let fails = compare(got, m);
+    let width_bad = fails.iter().any(|f| f.assertion == "width");
+    // distinct_once: no output row of a DISTINCT query occurs twice
+    let mut dup: Option<J> = None;
+    if is_distinct(q) && !width_bad {
+        let mut seen = BTreeSet::new();
+        for r in got {
+            if !seen.insert(row_key(r, true)) {
+                dup = Some(json!({"row_returned_more_than_once": r.iter().map(|v| v.to_json()).collect::<Vec<_>>()}));
+                break;
+            }
+        }
+    }
+    for f in fails {
+        if f.assertion != "width" {
+            if let Some(d) = dup.take() {
+                out.push(("distinct_once".into(), d));
+            }
+        }
+        out.push((f.assertion.to_string(), f.detail));
+    }
+    if let Some(d) = dup.take() {
+        out.push(("distinct_once".into(), d));
+    }
+    out
+}
+
+fn run_case(db: &mut Db, tables: &BTreeMap<String, MTable>, q: &Query) -> Outcome {
+    let m = match run_model(q, tables) {
+        Ok(m) => m,
+        Err(MErr::Unsupported(_)) | Err(MErr::Error(_)) => return Outcome::Dropped,
+    };
+    match db.query(&q.sql()) {
+        Ok(got) => {
+            let fails = judge(q, &got, &m);
+            if fails.is_empty() {
+                Outcome::Pass { m }
+            } else {
+                Outcome::Fail { fails, got: Some(got), m }
+            }
+        }
+        Err(e) if is_panic(&e) => {
+            let what = if e.contains("total order") { "sort_total_order_violation".to_string() } else { panic_tag(&e) };
+            Outcome::Fail { fails: vec![(format!("panic:{}", what), json!({"panic": e}))], got: None, m }
+        }
+        Err(e) => Outcome::Fail { fails: vec![(format!("unexpected_error:{}", err_class(&e)), json!({"error": e}))], got: None, m },
+    }
+}
+
+fn first_fail(db: &mut Db, tables: &BTreeMap<String, MTable>, q: &Query) -> Option<String> {
+    match run_case(db, tables, q) {
+        Outcome::Fail { fails, .. } => fails.first().map(|f| f.0.clone()),
+        _ => None,
+    }
+}
+
+/// the same query without DISTINCT / ORDER BY / LIMIT / OFFSET
+fn base_of(q: &Query) -> Query {
+    let mut b = q.clone();
+    match &mut b {
+        Query::Select(s) => {
+            s.distinct = false;
+            s.order_by.clear();
+            s.limit = None;
+            s.offset = None;
+        }
+        Query::SetOp { order_by, limit, offset, .. } => {
+            order_by.clear();
+            *limit = None;
+            *offset = None;
+        }
+    }
+    b
+}
+
+fn has_c15_feature(q: &Query) -> bool {
+    let (l, o) = window_of(q);
+    is_distinct(q) || !order_of(q).is_empty() || l.is_some() || o.is_some()
+}
+
+/// which ordering mechanism the plan uses
+fn plan_path(plan: &Option<String>, q: &Query) -> String {
+    let ordered = !order_of(q).is_empty();
+    let p = match plan {
+        Some(p) => p,
+        None => return "explain_failed".to_string(),
+    };
+    let base = if p.contains("-> TopK") {
+        "topk"
+    } else if p.contains("-> Sort\n") {
+        "sort"
+    } else if !ordered {
+        if p.contains("-> Limit") {
+            "limit_only"
+        } else {
+            "no_order"
+        }
+    } else if p.contains("-> SecondaryIndexScan") {
+        if p.contains("-> Limit") {
+            "index_order+limit"
+        } else {
+            "index_order"
+        }
+    } else if p.contains("-> TableScan") && !p.contains("-> SetOp") && !p.contains("Join") && !p.contains("Aggregate") {
+        if p.contains("-> Limit") {
+            "pk_order+limit"
+        } else {
+            "pk_order"
+        }
+    } else {
+        "order_by_without_sort_node"
+    };
+    // the hand-written execution paths of database.rs / set_ops.rs are separate mechanisms
+    let over = if p.contains("-> SetOp") {
+        "/setop"
+    } else if p.contains("-> IndexNestedLoopJoin") {
+        "/index_nested_loop_join"
+    } else if p.contains("HashJoin") {
+        "/hash_join"
+    } else if p.contains("-> NestedLoopJoin") {
+        "/nested_loop_join"
+    } else {
+        ""
+    };
+    format!("{}{}", base, over)
+}
+
+// ---------------------------------------------------------------------------------------------
+// shrinking
+// ---------------------------------------------------------------------------------------------
+
+fn subst(e: &E, from_sql: &str, to: &E) -> E {
+    if e.sql() == from_sql {
+        return to.clone();
+    }
+    let b = |x: &E| Box::new(subst(x, from_sql, to));
+    match e {
+        E::Neg(x) => E::Neg(b(x)),
+        E::Not(x) => E::Not(b(x)),
+        E::Bin(op, l, r) => E::Bin(*op, b(l), b(r)),
+        E::IsNull(x, n) => E::IsNull(b(x), *n),
+        E::Func(n, args) => E::Func(n.clone(), args.iter().map(|a| subst(a, from_sql, to)).collect()),
+        E::Agg(f, Some(x)) => E::Agg(*f, Some(b(x))),
+        other => other.clone(),
+    }
+}
+
+fn col_refs(e: &E, out: &mut Vec<E>) {
+    e.visit(&mut |x| {
+        if matches!(x, E::Col { .. }) && !out.iter().any(|o| o.sql() == x.sql()) {
+            out.push(x.clone());
+        }
+    });
+}
+
+fn refers_to(e: &E, tbl: &str) -> bool {
+    let mut r = vec![];
+    col_refs(e, &mut r);
+    r.iter().any(|c| matches!(c, E::Col { tbl: Some(t), .. } if t == tbl))
+}
+
+/// item index an order key points at (ordinal, alias, repeated expression / column)
+fn key_item(s_items: &[Item], k: &OrderKey) -> Option<usize> {
+    match k {
+        OrderKey::Ordinal(i, _) => Some(*i - 1),
+        OrderKey::Expr(e, _) => s_items.iter().position(|it| match it {
+            Item::Expr { e: ie, alias } => ie.sql() == e.sql() || matches!((alias, e), (Some(a), E::Col { tbl: None, name }) if a.eq_ignore_ascii_case(name)),
+            _ => false,
+        }),
+    }
+}
+
+/// single-step simplifications of a query (all valid SQL again)
+fn candidates(q: &Query) -> Vec<Query> {
+    let mut out: Vec<Query> = vec![];
+    let (lim, off) = window_of(q);
+    // window
+    if off.is_some() {
+        let mut c = q.clone();
+        set_window(&mut c, lim, None);
+        out.push(c);
+    }
+    if lim.is_some() {
+        let mut c = q.clone();
+        set_window(&mut c, None, None);
+        out.push(c);
+        if off.is_some() {
+            let mut c = q.clone();
+            set_window(&mut c, None, off);
+            out.push(c);
+        }
+    }
+    // order keys: remove, DESC -> ASC
+    let ob = order_of(q);
+    for i in 0..ob.len() {
+        let mut c = q.clone();
+        order_of_mut(&mut c).remove(i);
+        out.push(c);
+    }
+    for i in 0..ob.len() {
+        let desc = match &ob[i] {
+            OrderKey::Ordinal(_, d) | OrderKey::Expr(_, d) => *d,
+        };
+        if desc {
+            let mut c = q.clone();
+            match &mut order_of_mut(&mut c)[i] {
+                OrderKey::Ordinal(_, d) | OrderKey::Expr(_, d) => *d = false,
+            }
+            out.push(c);
+        }
+    }
+    match q {
+        Query::SetOp { kind, all, left, right, order_by, limit, offset } => {
+            // one branch alone, keeping ORDER BY / LIMIT (names of the left branch are turned into ordinals for the right)
+            if let (Query::Select(l), Query::Select(r)) = (&**left, &**right) {
+                let mut c = l.clone();
+                c.order_by = order_by.clone();
+                c.limit = *limit;
+                c.offset = *offset;
+                out.push(Query::Select(c));
+                let mut c = r.clone();
+                c.order_by = order_by
+                    .iter()
+                    .map(|k| match k {
+                        OrderKey::Expr(e, d) => match key_item(&l.items, k) {
+                            Some(p) => match &r.items[p] {
+                                Item::Expr { e: re, .. } => OrderKey::Expr(re.clone(), *d),
+                                _ => OrderKey::Expr(e.clone(), *d),
+                            },
+                            None => OrderKey::Expr(e.clone(), *d),
+                        },
+                        o => o.clone(),
+                    })
+                    .collect();
+                c.limit = *limit;
+                c.offset = *offset;
+                out.push(Query::Select(c));
+                for (side, s) in [(0, l), (1, r)] {
+                    if s.where_.is_some() {
+                        let mut s2 = s.clone();
+                        s2.where_ = None;
+                        let (nl, nr) = if side == 0 { (Query::Select(s2), (**right).clone()) } else { ((**left).clone(), Query::Select(s2)) };
+                        out.push(Query::SetOp { kind: *kind, all: *all, left: Box::new(nl), right: Box::new(nr), order_by: order_by.clone(), limit: *limit, offset: *offset });
+                    }
+                }
+                // fewer columns (only when ORDER BY uses no ordinal beyond / no name of the removed column)
+                if l.items.len() > 1 {
+                    for p in 0..l.items.len() {
+                        let used = order_by.iter().any(|k| key_item(&l.items, k) == Some(p));
+                        let has_ordinal = order_by.iter().any(|k| matches!(k, OrderKey::Ordinal(..)));
+                        if used || has_ordinal {
+                            continue;
+                        }
+                        let mut l2 = l.clone();
+                        let mut r2 = r.clone();
+                        l2.items.remove(p);
+                        r2.items.remove(p);
+                        out.push(Query::SetOp { kind: *kind, all: *all, left: Box::new(Query::Select(l2)), right: Box::new(Query::Select(r2)), order_by: order_by.clone(), limit: *limit, offset: *offset });
+                    }
+                }
+            }
+            if !*all && *kind == SetKind::Union {
+                out.push(Query::SetOp { kind: *kind, all: true, left: left.clone(), right: right.clone(), order_by: order_by.clone(), limit: *limit, offset: *offset });
+            }
+        }
+        Query::Select(s) => {
+            if s.where_.is_some() {
+                let mut c = s.clone();
+                c.where_ = None;
+                out.push(Query::Select(c));
+            }
+            if s.distinct {
+                let mut c = s.clone();
+                c.distinct = false;
+                out.push(Query::Select(c));
+            }
+            // drop the join: remove everything that refers to u
+            if !s.joins.is_empty() {
+                let mut c = s.clone();
+                let has_ordinal = c.order_by.iter().any(|k| matches!(k, OrderKey::Ordinal(..)));
+                if !has_ordinal {
+                    let dropped_alias: Vec<String> = c.items.iter().filter_map(|it| match it {
+                        Item::Expr { e, alias: Some(a) } if refers_to(e, "u") => Some(a.clone()),
+                        _ => None,
+                    }).collect();
+                    c.items.retain(|it| !matches!(it, Item::Expr { e, .. } if refers_to(e, "u")));
+                    c.order_by.retain(|k| match k {
+                        OrderKey::Expr(e, _) => !refers_to(e, "u") && !matches!(e, E::Col { tbl: None, name } if dropped_alias.iter().any(|a| a == name)),
+                        _ => true,
+                    });
+                    if c.where_.as_ref().map(|w| refers_to(w, "u")).unwrap_or(false) {
+                        c.where_ = None;
+                    }
+                    c.joins.clear();
+                    if !c.items.is_empty() {
+                        out.push(Query::Select(c));
+                    }
+                }
+                if s.joins[0].kind == JoinKind::Left {
+                    let mut c = s.clone();
+                    c.joins[0].kind = JoinKind::Inner;
+                    out.push(Query::Select(c));
+                }
+            }
+            // ordinal -> the item's alias / expression
+            for (i, k) in s.order_by.iter().enumerate() {
+                if let OrderKey::Ordinal(p, d) = k {
+                    if let Some(Item::Expr { e, alias }) = s.items.get(*p - 1) {
+                        let mut c = s.clone();
+                        c.order_by[i] = OrderKey::Expr(match alias {
+                            Some(a) => col(a),
+                            None => e.clone(),
+                        }, *d);
+                        out.push(Query::Select(c));
+                    }
+                }
+            }
+            // repeated expression -> alias reference
+            for (i, k) in s.order_by.iter().enumerate() {
+                if let OrderKey::Expr(e, d) = k {
+                    if !matches!(e, E::Col { .. }) {
+                        if let Some(Item::Expr { alias: Some(a), .. }) = key_item(&s.items, k).and_then(|p| s.items.get(p)) {
+                            let mut c = s.clone();
+                            c.order_by[i] = OrderKey::Expr(col(a), *d);
+                            out.push(Query::Select(c));
+                        }
+                    }
+                }
+            }
+            // expression item -> one of its columns (not for aggregates), keys follow
+            for (p, it) in s.items.iter().enumerate() {
+                if let Item::Expr { e, alias } = it {
+                    if matches!(e, E::Col { .. }) || e.has_agg() {
+                        continue;
+                    }
+                    let mut refs = vec![];
+                    col_refs(e, &mut refs);
+                    for r in refs {
+                        if s.items.iter().any(|o| matches!(o, Item::Expr { e: oe, .. } if oe.sql() == r.sql())) {
+                            continue;
+                        }
+                        let mut c = s.clone();
+                        c.items[p] = Item::Expr { e: r.clone(), alias: None };
+                        for k in c.order_by.iter_mut() {
+                            if let OrderKey::Expr(ke, d) = k {
+                                let is_alias = matches!((alias, &*ke), (Some(a), E::Col { tbl: None, name }) if a == name);
+                                if is_alias || ke.sql() == e.sql() {
+                                    *k = OrderKey::Expr(r.clone(), *d);
+                                }
+                            }
+                        }
+                        out.push(Query::Select(c));
+                    }
+                }
+            }
+            // remove an item no key points at
+            if s.items.len() > 1 {
+                for p in 0..s.items.len() {
+                    if s.order_by.iter().any(|k| key_item(&s.items, k) == Some(p)) {
+                        continue;
+                    }
+                    let mut c = s.clone();
+                    c.items.remove(p);
+                    for k in c.order_by.iter_mut() {
+                        if let OrderKey::Ordinal(i, _) = k {
+                            if *i - 1 > p {
+                                *i -= 1;
+                            }
+                        }
+                    }
+                    out.push(Query::Select(c));
+                }
+            }
+            // fewer group columns
+            if s.group_by.len() > 1 {
+                for g in 0..s.group_by.len() {
+                    let gs = s.group_by[g].sql();
+                    if s.items.iter().any(|it| matches!(it, Item::Expr { e, .. } if e.sql() == gs)) {
+                        continue;
+                    }
+                    let mut c = s.clone();
+                    c.group_by.remove(g);
+                    out.push(Query::Select(c));
+                }
+            }
+            // canonical column: replace a plain non-canonical data column by column 0 of its table
+            let mut refs = vec![];
+            for it in &s.items {
+                if let Item::Expr { e, .. } = it {
+                    col_refs(e, &mut refs);
+                }
+            }
+            for r in refs {
+                if let E::Col { tbl, name } = &r {
+                    if name == "id" {
+                        continue;
+                    }
+                    let suffix = &name[name.len() - 1..];
+                    let canon = E::Col { tbl: tbl.clone(), name: format!("i0{}", suffix) };
+                    if canon.sql() == r.sql() {
+                        continue;
+                    }
+                    let mut present = vec![];
+                    for it in &s.items {
+                        if let Item::Expr { e, .. } = it {
+                            col_refs(e, &mut present);
+                        }
+                    }
+                    if present.iter().any(|x| x.sql() == canon.sql()) {
+                        continue;
+                    }
+                    // only type-agnostic uses (plain column items, group columns, COUNT/MIN/MAX arguments)
+                    let mut c = s.clone();
+                    let rs = r.sql();
+                    for it in c.items.iter_mut() {
+                        if let Item::Expr { e, .. } = it {
+                            *e = subst(e, &rs, &canon);
+                        }
+                    }
+                    for g in c.group_by.iter_mut() {
+                        *g = subst(g, &rs, &canon);
+                    }
+                    for k in c.order_by.iter_mut() {
+                        if let OrderKey::Expr(e, _) = k {
+                            *e = subst(e, &rs, &canon);
+                        }
+                    }
+                    if let Some(w) = &c.where_ {
+                        if refers_name(w, name) {
+                            continue;
+                        }
+                    }
+                    out.push(Query::Select(c));
+                }
+            }
+        }
+    }
+    out
+}
+
+fn refers_name(e: &E, name: &str) -> bool {
+    let mut r = vec![];
+    col_refs(e, &mut r);
+    r.iter().any(|c| matches!(c, E::Col { name: n, .. } if n == name))
+}
+
+fn qsize(q: &Query) -> usize {
+    q.sql().len()
+}
+
+/// greedy: take the first candidate that still fails with the same first assertion
+fn shrink(db: &mut Db, tables: &BTreeMap<String, MTable>, q: &Query, a0: &str, budget: usize) -> Query {
+    let mut cur = q.clone();
+    let mut left = budget;
+    'outer: loop {
+        for cand in candidates(&cur) {
+            if left == 0 {
+                break 'outer;
+            }
+            if qsize(&cand) > qsize(&cur) + 8 {
+                continue;
+            }
+            left -= 1;
+            if first_fail(db, tables, &cand).as_deref() == Some(a0) {
+                cur = cand;
+                continue 'outer;
+            }
+        }
+        break;
+    }
+    cur
+}
+
+// ---------------------------------------------------------------------------------------------
+// signatures
+// ---------------------------------------------------------------------------------------------
+
+fn type_tag(name: &str) -> Option<&'static str> {
+    if name == "id" {
+        return Some("pk");
+    }
+    match name.chars().next() {
+        Some('f') => Some("float"),
+        Some('t') => Some("text"),
+        Some('b') => Some("bool"),
+        _ => None,
+    }
+}
+
+fn sig_features(q: &Query) -> BTreeSet<String> {
+    let mut f = BTreeSet::new();
+    let (l, o) = window_of(q);
+    if l.is_some() {
+        f.insert("limit".to_string());
+    }
+    if o.is_some() {
+        f.insert("offset".to_string());
+    }
+    let ob = order_of(q);
+    if !ob.is_empty() {
+        f.insert("order_by".into());
+    }
+    if ob.len() >= 2 {
+        f.insert("multi_key".into());
+    }
+    let mut refs: Vec<E> = vec![];
+    let mut key_items = |items: &[Item], f: &mut BTreeSet<String>, refs: &mut Vec<E>| {
+        for k in ob {
+            let desc = match k {
+                OrderKey::Ordinal(_, d) | OrderKey::Expr(_, d) => *d,
+            };
+            if desc {
+                f.insert("desc".into());
+            }
+            let target = key_item(items, k).and_then(|p| items.get(p));
+            match k {
+                OrderKey::Ordinal(..) => {
+                    f.insert("key:ordinal".into());
+                }
+                OrderKey::Expr(e, _) => {
+                    if !matches!(e, E::Col { .. }) {
+                        f.insert("key:repeated_expr".into());
+                    } else if matches!(target, Some(Item::Expr { alias: Some(_), .. })) {
+                        f.insert("key:alias".into());
+                    }
+                }
+            }
+            if let Some(Item::Expr { e, .. }) = target {
+                if e.has_agg() {
+                    f.insert("key_is:aggregate".into());
+                } else if !matches!(e, E::Col { .. }) {
+                    let mut t = BTreeSet::new();
+                    e.features(&mut t);
+                    let fnc = t.iter().any(|x| x.starts_with("fn:"));
+                    f.insert(if fnc { "key_is:function".to_string() } else { "key_is:arith".to_string() });
+                }
+                col_refs(e, refs);
+            }
+        }
+    };
+    match q {
+        Query::Select(s) => {
+            key_items(&s.items, &mut f, &mut refs);
+            if s.distinct {
+                f.insert("distinct".into());
+                for it in &s.items {
+                    if let Item::Expr { e, .. } = it {
+                        col_refs(e, &mut refs);
+                    }
+                }
+                if s.items.len() >= 2 {
+                    f.insert("distinct_multi_col".into());
+                }
+            }
+            if s.where_.is_some() {
+                f.insert("where".into());
+            }
+            if !s.group_by.is_empty() {
+                f.insert("group_by".into());
+            }
+            for j in &s.joins {
+                f.insert(format!("join:{:?}", j.kind).to_lowercase());
+            }
+        }
+        Query::SetOp { kind, all, left, .. } => {
+            f.insert(format!("setop:{:?}{}", kind, if *all { "_all" } else { "" }).to_lowercase());
+            if let Query::Select(l) = &**left {
+                key_items(&l.items, &mut f, &mut refs);
+            }
+            let mut t = BTreeSet::new();
+            q.features(&mut t);
+            if t.contains("where") {
+                f.insert("where".into());
+            }
+        }
+    }
+    for r in refs {
+        if let E::Col { name, .. } = r {
+            if let Some(t) = type_tag(&name) {
+                f.insert(format!("col:{}", t));
+            }
+        }
+    }
+    f
+}
+
+/// columns (by table) the minimal query's items / keys / group columns refer to
+fn involved_columns(q: &Query) -> BTreeSet<String> {
+    let mut refs = vec![];
+    let mut of_select = |s: &Select, refs: &mut Vec<E>| {
+        for it in &s.items {
+            if let Item::Expr { e, .. } = it {
+                col_refs(e, refs);
+            }
+        }
+        for g in &s.group_by {
+            col_refs(g, refs);
+        }
+        for k in &s.order_by {
+            if let OrderKey::Expr(e, _) = k {
+                col_refs(e, refs);
+            }
+        }
+        for j in &s.joins {
+            if let Some(on) = &j.on {
+                col_refs(on, refs);
+            }
+        }
+    };
+    match q {
+        Query::Select(s) => of_select(s, &mut refs),
+        Query::SetOp { left, right, .. } => {
+            for b in [left, right] {
+                if let Query::Select(s) = &**b {
+                    of_select(s, &mut refs);
+                }
+            }
+        }
+    }
+    refs.into_iter().filter_map(|e| if let E::Col { name, .. } = e { Some(name) } else { None }).collect()
+}
+
+fn rename_tables(q: &Query, map: &BTreeMap<String, String>) -> Query {
+    let ren = |f: &FromItem| -> FromItem {
+        match f {
+            FromItem::Table { name, alias } => match map.get(name) {
+                Some(n) => FromItem::Table { name: n.clone(), alias: Some(alias.clone().unwrap_or_else(|| name.clone())) },
+                None => f.clone(),
+            },
+            other => other.clone(),
+        }
+    };
+    match q {
+        Query::Select(s) => {
+            let mut c = s.clone();
+            c.from = s.from.iter().map(ren).collect();
+            for j in c.joins.iter_mut() {
+                j.item = ren(&j.item);
+            }
+            Query::Select(c)
+        }
+        Query::SetOp { kind, all, left, right, order_by, limit, offset } => Query::SetOp { kind: *kind, all: *all, left: Box::new(rename_tables(left, map)), right: Box::new(rename_tables(right, map)), order_by: order_by.clone(), limit: *limit, offset: *offset },
+    }
+}
+
+/// NULL-free twins of the tables (same rows with every NULL replaced by a non-NULL value, same index),
+/// created lazily once per database
+#[derive(Default)]
+struct NullFree {
+    tried: bool,
+    ok: bool,
+    map: BTreeMap<String, String>,
+    mtables: BTreeMap<String, MTable>,
+}
+
+impl NullFree {
+    fn ensure(&mut self, db: &mut Db, tabs: &[&Tab]) {
+        if self.tried {
+            return;
+        }
+        self.tried = true;
+        self.ok = true;
+        for tab in tabs {
+            let names = tab.spec.col_names();
+            let tys = tab.spec.col_types();
+            let mut rows = tab.rows.clone();
+            for r in rows.iter_mut() {
+                for (i, v) in r.iter_mut().enumerate() {
+                    if v.is_null() {
+                        *v = match tys[i] {
+                            Ty::Int => V::Int(1),
+                            Ty::Float => V::Float(0.5),
+                            Ty::Text => V::Text("a".into()),
+                            Ty::Bool => V::Bool(true),
+                        };
+                    }
+                }
+            }
+            let zname = format!("z{}", tab.spec.name);
+            let log_len = db.log.len();
+            for s in tab.setup(&zname, &rows) {
+                self.ok &= db.exec(&s).is_ok();
+            }
+            db.log.truncate(log_len);
+            self.map.insert(tab.spec.name.clone(), zname.clone());
+            self.mtables.insert(zname.clone(), MTable { name: zname, cols: names, rows });
+        }
+    }
+}
+
+/// causal data fact: does the failure disappear when the same statement runs on the NULL-free twins
+/// (same row count, same index)? Some(false) also when the involved columns hold no NULL at all;
+/// None = could not be established
+fn null_causal(db: &mut Db, tabs: &[&Tab], twins: &mut NullFree, q: &Query, a0: &str, index_path: bool) -> Option<bool> {
+    let mut inv = involved_columns(q);
+    if index_path {
+        // every column of an index that drives the order decides which rows the scan sees
+        for tab in tabs {
+            inv.extend(tab.index.iter().cloned());
+        }
+    }
+    let any_null = tabs.iter().any(|tab| {
+        let names = tab.spec.col_names();
+        tab.rows.iter().any(|r| r.iter().enumerate().any(|(i, v)| v.is_null() && inv.contains(&names[i])))
+    });
+    if !any_null {
+        return Some(false);
+    }
+    twins.ensure(db, tabs);
+    if !twins.ok {
+        return None;
+    }
+    let q2 = rename_tables(q, &twins.map);
+    match run_case(db, &twins.mtables, &q2) {
+        Outcome::Dropped => None,
+        Outcome::Pass { .. } => Some(true),
+        Outcome::Fail { fails, .. } => Some(fails.first().map(|f| f.0.as_str()) != Some(a0)),
+    }
+}
+
+fn coarse(assertion: &str) -> &'static str {
+    if assertion.starts_with("panic") {
+        "no_panic"
+    } else if assertion.starts_with("unexpected_error") {
+        "no_error"
+    } else if assertion == "sorted" {
+        "sorted"
+    } else if assertion == "distinct_once" {
+        "distinct_once"
+    } else if assertion.starts_with("window") {
+        "window"
+    } else {
+        "bag"
+    }
+}
+
+// ---------------------------------------------------------------------------------------------
+// component-level confirmation of the sort comparator (also runs under Miri)
+// ---------------------------------------------------------------------------------------------
+
+/// `Value::compare_for_sort` documents "treating NULL as less than any non-NULL value" and is the comparator of
+/// the Sort and TopK executors: NULL must be Less than every non-NULL, and the relation must be a total preorder.
+fn comparator_check(ctx: &mut Ctx) {
+    use std::cmp::Ordering::*;
+    use turdb::types::Value;
+    let vals: Vec<Value<'static>> = vec![Value::Null, Value::Int(-1), Value::Int(0), Value::Int(2), Value::Float(-0.5), Value::Float(1.5), Value::Text("a".into()), Value::Text("b".into()), Value::Text("".into())];
+    let same_class = |a: &Value, b: &Value| matches!((a, b), (Value::Null, _) | (_, Value::Null) | (Value::Int(_) | Value::Float(_), Value::Int(_) | Value::Float(_)) | (Value::Text(_), Value::Text(_)));
+    let mut null_first_bad = 0;
+    let mut intransitive = 0;
+    let mut evals = 0u64;
+    let r = catch(|| {
+        for a in &vals {
+            for b in &vals {
+                if !same_class(a, b) {
+                    continue;
+                }
+                evals += 1;
+                let ab = turdb::sql::util::compare_values_for_sort(a, b);
+                let ba = turdb::sql::util::compare_values_for_sort(b, a);
+                let a_null = matches!(a, Value::Null);
+                let b_null = matches!(b, Value::Null);
+                if a_null && !b_null && (ab != Less || ba != Greater) {
+                    null_first_bad += 1;
+                }
+                for c in &vals {
+                    if !same_class(b, c) || !same_class(a, c) {
+                        continue;
+                    }
+                    // equivalence must be transitive: a~b and b~c => a~c
+                    let bc = turdb::sql::util::compare_values_for_sort(b, c);
+                    let ac = turdb::sql::util::compare_values_for_sort(a, c);
+                    if ab == Equal && bc == Equal && ac != Equal {
+                        intransitive += 1;
+                    }
+                }
+            }
+        }
+    });
+    ctx.evals(evals);
+    ctx.count("comparator_pairs", evals);
+    if let Err(p) = r {
+        ctx.violation("no_panic", "C15/comparator/panic", json!({"panic": p}));
+        return;
+    }
+    ctx.nontrivial(fnv(b"comparator_null_first"));
+    if null_first_bad > 0 || intransitive > 0 {
+        ctx.violation(
+            "sorted",
+            "C15/comparator_null_first/Value::compare_for_sort/null_equal_to_every_value",
+            json!({"function": "turdb::sql::util::compare_values_for_sort -> Value::compare_for_sort", "pairs_where_null_is_not_less": null_first_bad, "intransitive_equivalence_triples": intransitive,
+                   "example": "compare_for_sort(NULL, 1) = Equal, compare_for_sort(NULL, 2) = Equal, compare_for_sort(1, 2) = Less"}),
+        );
+    }
+}
+
+// ---------------------------------------------------------------------------------------------
+// driver
+// ---------------------------------------------------------------------------------------------
+
+/// the closed list of query features that enter a signature (everything else - DESC, number of keys, WHERE, column types,
+/// join / set-operation kind - stays in the violation detail; the executing mechanism is named by the plan path)
+const MECH_FEATURES: &[&str] = &["distinct", "group_by", "key:ordinal", "key:repeated_expr", "key_is:aggregate", "key_is:arith", "key_is:function", "limit", "offset"];
+
+const FAMILIES: &[(&str, u64)] = &[("order", 20), ("limit", 22), ("distinct", 18), ("group", 10), ("join", 10), ("setop", 10), ("pk", 5), ("limit_only", 5)];
+
+fn pick_family(rng: &mut Rng) -> &'static str {
+    let total: u64 = FAMILIES.iter().map(|f| f.1).sum();
+    let mut r = rng.below(total);
+    for (n, w) in FAMILIES {
+        if r < *w {
+            return n;
+        }
+        r -= w;
+    }
+    "order"
+}
+
+fn bump(m: &mut BTreeMap<String, u64>, k: &str) {
+    *m.entry(k.to_string()).or_insert(0) += 1;
+}
+
+pub fn run(a: &Args) -> i32 {
+    let mut ctx = Ctx::new(
+        "C15",
+        &a.tier,
+        a.seed,
+        "exploration",
+        "generated tables t,u (id PK + 2..4 typed columns over tiny value domains, NULL strata 0/20/35/50%, 0..120 rows inserted in shuffled id order, with/without a 1- or 2-column secondary index created before or after the inserts) and generated queries of 8 families: multi-key ORDER BY (ASC/DESC, plain columns, arithmetic/COALESCE expressions by alias or repeated, ordinals; all keys projected), the same with LIMIT/OFFSET (0, 1, inside, at and beyond the end; OFFSET alone), DISTINCT on 1..4 columns with/without ORDER BY/LIMIT, GROUP BY ordered by aggregates, 2-table INNER/LEFT joins, UNION [ALL]/INTERSECT/EXCEPT ... ORDER BY ... LIMIT, ORDER BY the primary key, LIMIT without ORDER BY; optional WHERE. Each result is compared with the reference model: sorted (NULL lowest, DESC reversed, ties free), bag, window (cardinality + key multiset + rows drawn from the unwindowed bag), distinct_once. A failing query whose base (no DISTINCT/ORDER/LIMIT) is already wrong is dropped and counted; otherwise it is shrunk to a minimal failing statement; signature = assertion + minimal feature set + plan path + causal null_keys fact. Plus a direct check of the sort comparator Value::compare_for_sort (NULL less than non-NULL, transitive equivalence). distinct_nontrivial = distinct (database, statement) pairs whose model result has >= 2 different sort-key tuples, or whose window cuts rows, or where DISTINCT removes rows",
+    );
+    comparator_check(&mut ctx);
+    if cfg!(miri) {
+        // Database needs files/mmap: under Miri only the comparator component check runs
+        ctx.nontrivial(fnv(b"miri-second"));
+        return ctx.finish();
+    }
+    let mut rng = Rng::derive(a.seed, 15);
+    let quick = ctx.quick();
+    let ndb = if quick { 120 } else { 2500 };
+    let per_db = 60;
+    let scratch = Scratch::new("c15");
+    let mut fam_counts: BTreeMap<String, u64> = BTreeMap::new();
+    let mut path_counts: BTreeMap<String, u64> = BTreeMap::new();
+    let mut path_fail_counts: BTreeMap<String, u64> = BTreeMap::new();
+    let mut check_counts: BTreeMap<String, u64> = BTreeMap::new();
+    let mut base_fail: BTreeMap<String, (u64, String)> = BTreeMap::new();
+    let mut sig_counts: BTreeMap<String, (u64, String, String)> = BTreeMap::new();
+    let budget_s = if quick { 50.0 } else { 540.0 };
+    for dbi in 0..ndb {
+        if ctx.elapsed() > budget_s {
+            ctx.count("databases_skipped_time_budget", (ndb - dbi) as u64);
+            break;
+        }
+        // tables
+        let ncols = rng.usize(2, 4);
+        let mut tys = vec![Ty::Int];
+        for _ in 1..ncols {
+            tys.push(*rng.pick(&[Ty::Int, Ty::Text, Ty::Text, Ty::Float, Ty::Bool]));
+        }
+        let nt = match rng.below(16) {
+            0 => rng.usize(0, 3),
+            1..=12 => rng.usize(5, 40),
+            _ => rng.usize(41, 120),
+        };
+        let nu = rng.usize(0, 14);
+        let t = gen_tab(&mut rng, "t", &tys, nt, 600);
+        let u = gen_tab(&mut rng, "u", &tys, nu, 300);
+        let mut tables = BTreeMap::new();
+        tables.insert("t".to_string(), t.spec.to_mtable(t.rows.clone()));
+        tables.insert("u".to_string(), u.spec.to_mtable(u.rows.clone()));
+        let mut db = match Db::create(&scratch.dir(&format!("db{}", dbi))) {
+            Ok(d) => d,
+            Err(e) => {
+                ctx.inconclusive(&format!("cannot create database: {}", e));
+                break;
+            }
+        };
+        // durability is not under test here: no fsync per statement
+        let setup: Vec<String> = std::iter::once("PRAGMA synchronous = OFF".to_string()).chain(t.setup("t", &t.rows)).chain(u.setup("u", &u.rows)).collect();
+        let mut setup_err = None;
+        for s in &setup {
+            if let Err(e) = db.exec(s) {
+                setup_err = Some(json!({"stmt": s, "error": e}));
+                break;
+            }
+        }
+        if let Some(e) = setup_err {
+            ctx.eval();
+            ctx.violation("setup", "C15/setup_failed", json!({"failed": e, "setup": setup}));
+            continue;
+        }
+        ctx.count("databases", 1);
+        let mut twins = NullFree::default();
+        ctx.count(if t.index.is_empty() { "tables_t_without_index" } else { "tables_t_with_index" }, 1);
+        for _ in 0..per_db {
+            let family = pick_family(&mut rng);
+            let mut q = match family {
+                "group" => gen_group(&mut rng, &t),
+                "join" => gen_join(&mut rng, &t, &u),
+                "setop" => gen_setop(&mut rng, &t, &u),
+                f => gen_single(&mut rng, &t, f),
+            };
+            // window relative to the unwindowed cardinality
+            let want_window = match family {
+                "limit" | "limit_only" => true,
+                "order" => false,
+                _ => rng.chance(1, 2),
+            };
+            if want_window {
+                let n = match run_model(&q, &tables) {
+                    Ok(m) => m.rows.len() as u64,
+                    Err(_) => 5,
+                };
+                let (l, o) = pick_window(&mut rng, n);
+                set_window(&mut q, l, o);
+            }
+            let sql = q.sql();
+            ctx.eval();
+            let plan = db.explain(&sql);
+            let path = plan_path(&plan, &q);
+            match run_case(&mut db, &tables, &q) {
+                Outcome::Dropped => ctx.count("dropped_model_undecided", 1),
+                Outcome::Pass { m } => {
+                    bump(&mut fam_counts, family);
+                    bump(&mut path_counts, &path);
+                    // which sub-assertions had substance
+                    let pool = m.pre_window.as_ref().unwrap_or(&m.rows);
+                    let mut nontrivial = false;
+                    if m.ordered {
+                        if let Some(keys) = &m.sort_cols {
+                            let kt: BTreeSet<String> = pool.iter().map(|r| keys.iter().map(|(c, _)| r[*c].key(true)).collect::<Vec<_>>().join("|")).collect();
+                            if m.rows.len() >= 2 {
+                                bump(&mut check_counts, "sorted");
+                            }
+                            if pool.iter().any(|r| keys.iter().any(|(c, _)| r[*c].is_null())) {
+                                bump(&mut check_counts, "sorted_with_null_keys");
+                            }
+                            nontrivial |= kt.len() >= 2;
+                        }
+                    }
+                    if m.pre_window.is_some() {
+                        bump(&mut check_counts, "window");
+                        let cut = pool.len() > m.rows.len();
+                        if cut {
+                            bump(&mut check_counts, "window_cuts_rows");
+                        }
+                        if m.rows.is_empty() && !pool.is_empty() {
+                            bump(&mut check_counts, "window_empty_result");
+                        }
+                        nontrivial |= cut;
+                    } else {
+                        bump(&mut check_counts, "bag");
+                    }
+                    if is_distinct(&q) {
+                        bump(&mut check_counts, "distinct_once");
+                        let mut q2 = base_of(&q);
+                        if let Query::Select(s) = &mut q2 {
+                            s.distinct = false;
+                        }
+                        if let Ok(m2) = run_model(&q2, &tables) {
+                            let d: BTreeSet<String> = m2.rows.iter().map(|r| row_key(r, true)).collect();
+                            if d.len() < m2.rows.len() {
+                                bump(&mut check_counts, "distinct_removes_rows");
+                                nontrivial = true;
+                            }
+                        }
+                    }
+                    if nontrivial {
+                        ctx.nontrivial(fnv(format!("{}#{}", dbi, sql).as_bytes()));
+                    }
+                    if ctx.samples.len() < 6 && nontrivial && rng.chance(1, 40) {
+                        ctx.sample(json!({"sql": sql, "family": family, "path": path, "rows": m.rows.len(), "table_rows": [t.rows.len(), u.rows.len()], "index_on_t": t.index}));
+                    }
+                }
+                Outcome::Fail { fails, got, m } => {
+                    let a0 = fails[0].0.clone();
+                    // a wrong base query (no DISTINCT/ORDER BY/LIMIT/OFFSET) explains wrong values / counts / errors,
+                    // but not an unsorted result, a wrong key window or a repeated DISTINCT row
+                    let base = base_of(&q);
+                    let attributable = !matches!(a0.as_str(), "sorted" | "window_keys" | "distinct_once");
+                    if has_c15_feature(&q) && attributable {
+                        if let Outcome::Fail { fails: bf, .. } = run_case(&mut db, &tables, &base) {
+                            let mut f = BTreeSet::new();
+                            base.features(&mut f);
+                            let k = format!("{}|{}", bf[0].0, f.into_iter().filter(|x| !x.starts_with("cmp(") && !x.starts_with("arith")).collect::<Vec<_>>().join("+"));
+                            let e = base_fail.entry(k).or_insert((0, base.sql()));
+                            e.0 += 1;
+                            ctx.count("dropped_base_query_wrong", 1);
+                            continue;
+                        }
+                    }
+                    bump(&mut fam_counts, family);
+                    bump(&mut path_counts, &path);
+                    bump(&mut path_fail_counts, &path);
+                    let small = shrink(&mut db, &tables, &q, &a0, 120);
+                    if !has_c15_feature(&small) {
+                        ctx.count("dropped_minimal_query_has_no_c15_feature", 1);
+                        let e = base_fail.entry(format!("{}|minimal:{}", a0, small.sql())).or_insert((0, small.sql()));
+                        e.0 += 1;
+                        continue;
+                    }
+                    let small_plan = db.explain(&small.sql());
+                    let small_path = plan_path(&small_plan, &small);
+                    let feats = sig_features(&small);
+                    let nullc = null_causal(&mut db, &[&t, &u], &mut twins, &small, &a0, small_path.starts_with("index_order"));
+                    let small_out = run_case(&mut db, &tables, &small);
+                    let (small_fails, small_got, small_want) = match small_out {
+                        Outcome::Fail { fails, got, m } => (fails, got, Some(m.rows)),
+                        _ => (vec![], None, None),
+                    };
+                    let sig = format!(
+                        "C15/{}/{}/{}/{}",
+                        a0,
+                        match nullc {
+                            Some(true) => "null_keys",
+                            Some(false) => "any_keys",
+                            None => "null_keys_undetermined",
+                        },
+                        small_path.replace('/', "@"),
+                        feats.iter().filter(|f| MECH_FEATURES.contains(&f.as_str())).cloned().collect::<Vec<_>>().join("+")
+                    );
+                    let first = !sig_counts.contains_key(&sig);
+                    let ent = sig_counts.entry(sig.clone()).or_insert((0, small.sql(), sql.clone()));
+                    ent.0 += 1;
+                    if small.sql().len() < ent.1.len() {
+                        ent.1 = small.sql();
+                    }
+                    let detail = json!({
+                            "sql": sql, "family": family, "plan": plan, "path": path,
+                            "failing_assertions": fails.iter().map(|f| f.0.clone()).collect::<Vec<_>>(),
+                            "first_fail_detail": fails[0].1,
+                            "got": got.as_ref().map(|g| rows_json(g, 12)), "want_one_valid_order": rows_json(&m.rows, 12),
+                            "minimal_sql": small.sql(), "minimal_plan": small_plan,
+                            "minimal_failing_assertions": small_fails.iter().map(|f| f.0.clone()).collect::<Vec<_>>(),
+                            "minimal_detail": small_fails.first().map(|f| f.1.clone()),
+                            "minimal_got": small_got.as_ref().map(|g| rows_json(g, 12)), "minimal_want_one_valid_order": small_want.as_ref().map(|g| rows_json(g, 12)),
+                            "null_keys_causal": nullc, "minimal_features": feats.iter().cloned().collect::<Vec<_>>(), "setup": setup, "first_of_sig": first,
+                    });
+                    // debugging aid: C15_TRACE=<substring of a signature> prints the full detail of matching failures
+                    if let Ok(pat) = std::env::var("C15_TRACE") {
+                        if !pat.is_empty() && sig.contains(&pat) {
+                            println!("TRACE {}\n{}", sig, serde_json::to_string_pretty(&detail).unwrap_or_default());
+                        }
+                    }
+                    ctx.violation(coarse(&a0), &sig, detail);
+                }
+            }
+        }
+    }
+    ctx.extra.insert("judged_cases_by_family".into(), json!(fam_counts));
+    ctx.extra.insert("judged_cases_by_plan_path".into(), json!(path_counts));
+    ctx.extra.insert("failing_cases_by_plan_path".into(), json!(path_fail_counts));
+    ctx.extra.insert("passing_cases_by_substantive_check".into(), json!(check_counts));
+    let sc: BTreeMap<String, J> = sig_counts.into_iter().map(|(k, (n, s, o))| (k, json!({"count": n, "shortest_minimal_sql": s, "first_original_sql": o}))).collect();
+    ctx.extra.insert("failure_signatures".into(), json!(sc));
+    let bf: BTreeMap<String, J> = base_fail.into_iter().map(|(k, (n, s))| (k, json!({"count": n, "example": s}))).collect();
+    ctx.extra.insert("dropped_base_query_failures".into(), json!(bf));
+    ctx.assumptions.push("NULL sorts lowest (first ascending, last descending) as the property states; text compares bytewise; FALSE < TRUE; tie order is free; with LIMIT/OFFSET any tie choice is accepted (key multiset of the window + rows drawn from the unwindowed bag); a failure whose base query (no DISTINCT/ORDER BY/LIMIT/OFFSET) is already wrong belongs to C14/C16/C17/C18 and is dropped; no -0.0/NaN, no text-vs-number comparison is generated".into());
+    ctx.finish()
 }
